@@ -222,4 +222,505 @@ theorem label_lt (he : EquivOn rel rows) {o : List σ} (ho : o ∈ rows) :
 
 end Classes
 
+/-! ## The join relation -/
+
+section Join
+variable {σ : Type} [DecidableEq σ]
+
+theorem sameOn_iff (g : List Nat) (o o' : List σ) :
+    sameOn g o o' = true ↔ project g o = project g o' := by
+  simp [sameOn]
+
+theorem joinRel_iff (groups : List (List Nat)) (o o' : List σ) :
+    joinRel groups o o' = true ↔ ∀ g ∈ groups, project g o = project g o' := by
+  simp [joinRel, sameOn]
+
+theorem linkRel_iff (groups : List (List Nat)) (o o' : List σ) :
+    linkRel groups o o' = true ↔ ∃ g ∈ groups, project g o = project g o' := by
+  simp [linkRel, sameOn]
+
+/-- Agreeing on every group is agreeing on the union of the groups. -/
+theorem joinRel_iff_flatten (groups : List (List Nat)) (o o' : List σ) :
+    joinRel groups o o' = true ↔ project groups.flatten o = project groups.flatten o' := by
+  rw [joinRel_iff, InfoReal.project_eq_iff]
+  constructor
+  · intro h i hi
+    obtain ⟨g, hg, hig⟩ := List.mem_flatten.mp hi
+    exact (InfoReal.project_eq_iff g o o').mp (h g hg) i hig
+  · intro h g hg
+    rw [InfoReal.project_eq_iff]
+    intro i hi
+    exact h i (List.mem_flatten.mpr ⟨g, hg, hi⟩)
+
+theorem joinRel_refl (groups : List (List Nat)) (o : List σ) : joinRel groups o o = true := by
+  rw [joinRel_iff]; intros; rfl
+
+theorem joinRel_symm (groups : List (List Nat)) {o o' : List σ}
+    (h : joinRel groups o o' = true) : joinRel groups o' o = true := by
+  rw [joinRel_iff] at h ⊢
+  exact fun g hg => (h g hg).symm
+
+theorem joinRel_trans (groups : List (List Nat)) {o o' o'' : List σ}
+    (h : joinRel groups o o' = true) (h' : joinRel groups o' o'' = true) :
+    joinRel groups o o'' = true := by
+  rw [joinRel_iff] at h h' ⊢
+  exact fun g hg => (h g hg).trans (h' g hg)
+
+theorem joinRel_equivOn (groups : List (List Nat)) (rows : List (List σ)) :
+    EquivOn (joinRel groups) rows :=
+  ⟨fun o _ => joinRel_refl groups o, fun _ _ _ _ h => joinRel_symm groups h,
+    fun _ _ _ _ _ _ h h' => joinRel_trans groups h h'⟩
+
+theorem linkRel_symm (groups : List (List Nat)) {o o' : List σ}
+    (h : linkRel groups o o' = true) : linkRel groups o' o = true := by
+  rw [linkRel_iff] at h ⊢
+  obtain ⟨g, hg, e⟩ := h
+  exact ⟨g, hg, e.symm⟩
+
+end Join
+
+/-! ## Connected components -/
+
+section Component
+variable {σ : Type} [DecidableEq σ]
+
+/-- `o'` can be reached from `o` by `link`-steps through members of `rows`. -/
+def Reach (link : List σ → List σ → Bool) (rows : List (List σ)) : List σ → List σ → Prop :=
+  Relation.ReflTransGen (fun a b => b ∈ rows ∧ link a b = true)
+
+variable {link : List σ → List σ → Bool} {rows : List (List σ)}
+
+theorem Reach.refl (o : List σ) : Reach link rows o o := Relation.ReflTransGen.refl
+
+theorem Reach.trans {a b c : List σ} (h : Reach link rows a b) (h' : Reach link rows b c) :
+    Reach link rows a c := Relation.ReflTransGen.trans h h'
+
+theorem Reach.single {a b : List σ} (hb : b ∈ rows) (h : link a b = true) :
+    Reach link rows a b := Relation.ReflTransGen.single ⟨hb, h⟩
+
+/-- Everything reachable from a row is a row. -/
+theorem Reach.mem {a b : List σ} (ha : a ∈ rows) (h : Reach link rows a b) : b ∈ rows := by
+  induction h with
+  | refl => exact ha
+  | tail _ hstep _ => exact hstep.1
+
+/-- For a symmetric `link`, reachability from a row is symmetric. -/
+theorem Reach.symm (hs : ∀ a b, link a b = true → link b a = true) {a b : List σ}
+    (ha : a ∈ rows) (h : Reach link rows a b) : Reach link rows b a := by
+  induction h with
+  | refl => exact Relation.ReflTransGen.refl
+  | @tail b c hab hstep ih =>
+    exact Relation.ReflTransGen.head ⟨Reach.mem ha hab, hs _ _ hstep.2⟩ ih
+
+theorem foldl_range_const {β : Type} (F : β → β) (n : Nat) (x : β) :
+    (List.range n).foldl (fun c _ => F c) x = F^[n] x := by
+  induction n with
+  | zero => rfl
+  | succ n ih =>
+    rw [List.range_succ, List.foldl_append, ih, Function.iterate_succ_apply']
+    rfl
+
+/-- The class after `k` rounds. -/
+def rounds (link : List σ → List σ → Bool) (rows : List (List σ)) (o : List σ) (k : Nat) :
+    List (List σ) := (growClass link rows)^[k] [o]
+
+/-- The test applied by one round. -/
+def growP (link : List σ → List σ → Bool) (cls : List (List σ)) (x : List σ) : Bool :=
+  cls.contains x || cls.any (fun c => link c x)
+
+theorem growP_iff {cls : List (List σ)} {x : List σ} :
+    growP link cls x = true ↔ x ∈ cls ∨ ∃ c ∈ cls, link c x = true := by
+  simp [growP]
+
+theorem component_eq_rounds (link : List σ → List σ → Bool) (rows : List (List σ)) (o : List σ) :
+    component link rows o = rounds link rows o rows.length :=
+  foldl_range_const _ _ _
+
+theorem rounds_zero (o : List σ) : rounds link rows o 0 = [o] := rfl
+
+theorem rounds_succ (o : List σ) (k : Nat) :
+    rounds link rows o (k + 1) = rows.filter (growP link (rounds link rows o k)) := by
+  unfold rounds
+  rw [Function.iterate_succ_apply']
+  rfl
+
+theorem mem_rounds_succ {o : List σ} {k : Nat} {x : List σ} :
+    x ∈ rounds link rows o (k + 1)
+      ↔ x ∈ rows ∧ (x ∈ rounds link rows o k ∨ ∃ c ∈ rounds link rows o k, link c x = true) := by
+  rw [rounds_succ, List.mem_filter, growP_iff]
+
+/-- Soundness: the rounds only add reachable rows. -/
+theorem rounds_sound {o : List σ} (ho : o ∈ rows) (k : Nat) {x : List σ}
+    (hx : x ∈ rounds link rows o k) : x ∈ rows ∧ Reach link rows o x := by
+  induction k generalizing x with
+  | zero =>
+    have : x = o := by simpa [rounds_zero] using hx
+    subst this; exact ⟨ho, Reach.refl x⟩
+  | succ k ih =>
+    rw [mem_rounds_succ] at hx
+    obtain ⟨hxr, hx | ⟨c, hc, hl⟩⟩ := hx
+    · exact ih hx
+    · exact ⟨hxr, (ih hc).2.trans (Reach.single hxr hl)⟩
+
+/-- The rounds are increasing. -/
+theorem rounds_mono_succ {o : List σ} (ho : o ∈ rows) (k : Nat) {x : List σ}
+    (hx : x ∈ rounds link rows o k) : x ∈ rounds link rows o (k + 1) := by
+  rw [mem_rounds_succ]
+  exact ⟨(rounds_sound ho k hx).1, Or.inl hx⟩
+
+theorem rounds_mono {o : List σ} (ho : o ∈ rows) {j k : Nat} (hjk : j ≤ k) {x : List σ}
+    (hx : x ∈ rounds link rows o j) : x ∈ rounds link rows o k := by
+  induction hjk with
+  | refl => exact hx
+  | step _ ih => exact rounds_mono_succ ho _ ih
+
+/-- A filter by a weaker predicate that accepts one more element is strictly longer. -/
+theorem length_filter_lt {β : Type} (p q : β → Bool) (l : List β)
+    (hpq : ∀ x ∈ l, p x = true → q x = true) (hex : ∃ x ∈ l, q x = true ∧ p x = false) :
+    (l.filter p).length < (l.filter q).length := by
+  induction l with
+  | nil => obtain ⟨x, hx, _⟩ := hex; simp at hx
+  | cons y l ih =>
+    have hle : (l.filter p).length ≤ (l.filter q).length := by
+      have := List.countP_mono_left (l := l) (p := p) (q := q)
+        (fun x hx h => hpq x (List.mem_cons_of_mem _ hx) h)
+      simpa [List.countP_eq_length_filter] using this
+    obtain ⟨x, hx, hqx, hpx⟩ := hex
+    rcases List.mem_cons.mp hx with rfl | hxl
+    · rw [List.filter_cons_of_neg (by simp [hpx]), List.filter_cons_of_pos hqx]
+      simp only [List.length_cons]; omega
+    · have hlt := ih (fun z hz => hpq z (List.mem_cons_of_mem _ hz)) ⟨x, hxl, hqx, hpx⟩
+      by_cases hpy : p y = true
+      · rw [List.filter_cons_of_pos hpy, List.filter_cons_of_pos (hpq y (by simp) hpy)]
+        simp only [List.length_cons]; omega
+      · rw [List.filter_cons_of_neg hpy]
+        by_cases hqy : q y = true
+        · rw [List.filter_cons_of_pos hqy]; simp only [List.length_cons]; omega
+        · rw [List.filter_cons_of_neg hqy]; exact hlt
+
+/-- From round 1 on, either a round changes nothing or the class gets strictly longer. -/
+theorem rounds_dichotomy {o : List σ} (ho : o ∈ rows) {k : Nat} (hk : 1 ≤ k) :
+    rounds link rows o (k + 1) = rounds link rows o k
+    ∨ (rounds link rows o k).length < (rounds link rows o (k + 1)).length := by
+  obtain ⟨k, rfl⟩ : ∃ k', k = k' + 1 := ⟨k - 1, by omega⟩
+  have hmono : ∀ z ∈ rows, growP link (rounds link rows o k) z = true
+      → growP link (rounds link rows o (k + 1)) z = true := by
+    intro z hz hp
+    have hz1 : z ∈ rounds link rows o (k + 1) := by
+      rw [rounds_succ]; exact List.mem_filter.mpr ⟨hz, hp⟩
+    have hz2 := rounds_mono_succ ho (k + 1) hz1
+    rw [rounds_succ] at hz2
+    exact (List.mem_filter.mp hz2).2
+  have e2 := rounds_succ (link := link) (rows := rows) o (k + 1)
+  have e1 := rounds_succ (link := link) (rows := rows) o k
+  by_cases hex : ∃ x ∈ rows, growP link (rounds link rows o (k + 1)) x = true
+      ∧ growP link (rounds link rows o k) x = false
+  · right
+    rw [e2]; conv_lhs => rw [e1]
+    exact length_filter_lt _ _ _ hmono hex
+  · left
+    rw [e2]; conv_rhs => rw [e1]
+    apply List.filter_congr
+    intro x hxr
+    cases h1 : growP link (rounds link rows o k) x with
+    | true => exact hmono x hxr h1
+    | false =>
+      cases h2 : growP link (rounds link rows o (k + 1)) x with
+      | true => exact absurd ⟨x, hxr, h2, h1⟩ hex
+      | false => rfl
+
+/-- Once a round changes nothing, no later round does. -/
+theorem rounds_stable {o : List σ} {j : Nat}
+    (hj : rounds link rows o (j + 1) = rounds link rows o j) (m : Nat) :
+    rounds link rows o (j + m) = rounds link rows o j := by
+  induction m with
+  | zero => rfl
+  | succ m ih =>
+    have : rounds link rows o (j + (m + 1)) = growClass link rows (rounds link rows o (j + m)) := by
+      unfold rounds; rw [← Nat.add_assoc, Function.iterate_succ_apply']
+    rw [this, ih]
+    have : rounds link rows o (j + 1) = growClass link rows (rounds link rows o j) := by
+      unfold rounds; rw [Function.iterate_succ_apply']
+    rw [← this, hj]
+
+/-- Counting: before stabilising, round `k ≥ 1` has at least `k` members. -/
+theorem rounds_count {o : List σ} (ho : o ∈ rows) {k : Nat} (hk : 1 ≤ k) :
+    (∃ j, j ≤ k ∧ rounds link rows o (j + 1) = rounds link rows o j)
+    ∨ k ≤ (rounds link rows o k).length := by
+  induction k, hk using Nat.le_induction with
+  | base =>
+    right
+    have : o ∈ rounds link rows o 1 := rounds_mono_succ ho 0 (by simp [rounds_zero])
+    exact List.length_pos_of_mem this
+  | succ k hk ih =>
+    rcases ih with ⟨j, hjk, hj⟩ | hlen
+    · exact Or.inl ⟨j, by omega, hj⟩
+    · rcases rounds_dichotomy (link := link) ho hk with h | h
+      · exact Or.inl ⟨k, by omega, h⟩
+      · right; omega
+
+/-- The closure stabilises within `rows.length` rounds. -/
+theorem rounds_stabilise {o : List σ} (ho : o ∈ rows) :
+    ∃ j, j ≤ rows.length ∧ rounds link rows o (j + 1) = rounds link rows o j := by
+  have hpos : 1 ≤ rows.length := List.length_pos_of_mem ho
+  rcases rounds_count (link := link) ho hpos with h | hlen
+  · exact h
+  · refine ⟨rows.length, le_rfl, ?_⟩
+    rcases rounds_dichotomy (link := link) ho hpos with h | h
+    · exact h
+    · exfalso
+      have h2 : (rounds link rows o (rows.length + 1)).length ≤ rows.length := by
+        rw [rounds_succ]; exact List.length_filter_le _ _
+      omega
+
+/-- **`component` computes the connected component**: for a row `o`, its members are exactly the
+rows reachable from `o`. -/
+theorem mem_component_iff {o : List σ} (ho : o ∈ rows) (x : List σ) :
+    x ∈ component link rows o ↔ x ∈ rows ∧ Reach link rows o x := by
+  rw [component_eq_rounds]
+  refine ⟨rounds_sound ho _, ?_⟩
+  rintro ⟨-, hreach⟩
+  obtain ⟨j, hjn, hj⟩ := rounds_stabilise (link := link) ho
+  have hst : rounds link rows o rows.length = rounds link rows o j := by
+    have := rounds_stable hj (rows.length - j)
+    rwa [Nat.add_sub_cancel' hjn] at this
+  rw [hst]
+  induction hreach with
+  | refl => exact rounds_mono ho (Nat.zero_le j) (by simp [rounds_zero])
+  | @tail b c _ hstep ih =>
+    rw [← hj, mem_rounds_succ]
+    exact ⟨hstep.1, Or.inr ⟨b, ih, hstep.2⟩⟩
+
+/-- For a row `o` the computed component is the sub-list of the rows reachable from `o`. -/
+theorem component_eq_filter {o : List σ} (ho : o ∈ rows)
+    [DecidablePred (Reach link rows o)] :
+    component link rows o = rows.filter (fun x => decide (Reach link rows o x)) := by
+  have hpos : 0 < rows.length := List.length_pos_of_mem ho
+  obtain ⟨n, hn⟩ : ∃ n, rows.length = n + 1 := ⟨rows.length - 1, by omega⟩
+  have e : component link rows o = rows.filter (growP link (rounds link rows o n)) := by
+    rw [component_eq_rounds, hn, rounds_succ]
+  rw [e]
+  apply List.filter_congr
+  intro x hx
+  have h1 : x ∈ rows.filter (growP link (rounds link rows o n)) ↔ Reach link rows o x := by
+    rw [← e, mem_component_iff ho]; exact ⟨fun h => h.2, fun h => ⟨hx, h⟩⟩
+  rw [List.mem_filter] at h1
+  apply Bool.eq_iff_iff.mpr
+  rw [decide_eq_true_iff]
+  exact ⟨fun h => h1.mp ⟨hx, h⟩, fun h => (h1.mpr h).2⟩
+
+end Component
+section MeetSec
+variable {σ : Type} [DecidableEq σ]
+
+open Classical in
+/-- Reachability as a Boolean relation (classically decided; proof device only). -/
+noncomputable def reachB (link : List σ → List σ → Bool) (rows : List (List σ))
+    (o x : List σ) : Bool := decide (Reach link rows o x)
+
+open Classical in
+theorem reachB_iff {link : List σ → List σ → Bool} {rows : List (List σ)} {o x : List σ} :
+    reachB link rows o x = true ↔ Reach link rows o x := by
+  unfold reachB; exact decide_eq_true_iff
+
+/-- For a symmetric `link`, reachability is an equivalence relation on the rows. -/
+theorem reachB_equivOn {link : List σ → List σ → Bool}
+    (hs : ∀ a b, link a b = true → link b a = true) (rows : List (List σ)) :
+    EquivOn (reachB link rows) rows := by
+  refine ⟨fun o _ => reachB_iff.mpr (Reach.refl o), ?_, ?_⟩
+  · intro o ho o' _ h
+    exact reachB_iff.mpr (Reach.symm hs ho (reachB_iff.mp h))
+  · intro o _ o' _ o'' _ h h'
+    exact reachB_iff.mpr ((reachB_iff.mp h).trans (reachB_iff.mp h'))
+
+/-- The classes computed with `component` are the classes of the reachability relation. -/
+theorem classesBy_component (link : List σ → List σ → Bool) (rows : List (List σ)) :
+    classesBy (component link rows) rows
+      = classesBy (fun o => rows.filter (reachB link rows o)) rows := by
+  apply classesBy_congr
+  intro o ho
+  classical
+  rw [component_eq_filter ho]
+  apply List.filter_congr
+  intro x _
+  unfold reachB
+  congr
+
+theorem meetClasses_eq (groups : List (List Nat)) (rows : List (List σ)) :
+    meetClasses groups rows
+      = classesBy (fun o => rows.filter (reachB (linkRel groups) rows o)) rows :=
+  classesBy_component _ _
+
+theorem meet_equivOn (groups : List (List Nat)) (rows : List (List σ)) :
+    EquivOn (reachB (linkRel groups (σ := σ)) rows) rows :=
+  reachB_equivOn (fun _ _ h => linkRel_symm groups h) rows
+
+/-- A labelling that is a function of each group separately is constant along paths. -/
+theorem const_of_reach {β : Type} (groups : List (List Nat)) (rows : List (List σ))
+    (ℓ : List σ → β)
+    (hℓ : ∀ g ∈ groups, ∀ o ∈ rows, ∀ o' ∈ rows, project g o = project g o' → ℓ o = ℓ o')
+    {o o' : List σ} (ho : o ∈ rows) (h : Reach (linkRel groups) rows o o') : ℓ o = ℓ o' := by
+  induction h with
+  | refl => rfl
+  | @tail b c hob hstep ih =>
+    obtain ⟨g, hg, e⟩ := (linkRel_iff groups b c).mp hstep.2
+    exact ih.trans (hℓ g hg b (Reach.mem ho hob) c hstep.1 e)
+
+end MeetSec
+/-! ## Entropy of the image of a table under a map -/
+
+section Entropy
+open Dit.Lemmas.InfoReal Dit.Lemmas.InfoAlg
+
+variable {κ κ₁ κ₂ : Type}
+
+/-- Entropy (bits) of the law of `f` under the table `t`. -/
+noncomputable def Hmap [DecidableEq κ₁] (f : κ → κ₁) (t : Tab κ ℝ) : ℝ :=
+  entropyVals (Real.logb 2) (vals (pushforward f t))
+
+theorem entropyOf_eq_Hmap {σ : Type} [DecidableEq σ] (t : Tab (List σ) ℝ) (X : List Nat) :
+    entropyOf (Real.logb 2) t X = Hmap (project X) t := rfl
+
+theorem pushforward_map_key {α : Type} [Add α] [DecidableEq κ₂] (f : κ₁ → κ₂) (g : κ → κ₁)
+    (t : Tab κ α) :
+    pushforward f (t.map (fun r => (g r.1, r.2))) = pushforward (fun k => f (g k)) t := by
+  unfold pushforward
+  rw [List.foldl_map]
+
+/-- Row form: `H(f) = −Σ_rows v · log₂ P(f = f key)`. -/
+theorem Hmap_rows [DecidableEq κ₁] (f : κ → κ₁) (t : Tab κ ℝ) :
+    Hmap f t = -(t.map (fun r => r.2 * Real.logb 2 (fibreSum f t (f r.1)))).sum := by
+  unfold Hmap
+  rw [entropyVals_eq_sum, vals, List.map_map]
+  congr 1
+  rw [← sum_pushforward (fun k v => v * Real.logb 2 (fibreSum f t k))
+    (by intro k v v'; ring) f t]
+  congr 1
+  apply List.map_congr_left
+  intro r hr
+  simp only [Function.comp_apply]
+  rw [← pushforward_val f t r hr]
+
+/-- The weights of the rows, indexed by position. -/
+def wOf (t : Tab κ ℝ) : Fin t.length → ℝ := fun j => t[j.1].2
+
+/-- The value of `f` on the key of the row at a position. -/
+def atRow (f : κ → κ₁) (t : Tab κ ℝ) : Fin t.length → κ₁ := fun j => f t[j.1].1
+
+theorem fibreSum_eq_cm [DecidableEq κ₁] (f : κ → κ₁) (t : Tab κ ℝ) (i : Fin t.length) :
+    fibreSum f t (f t[i.1].1) = cm (wOf t) (atRow f t) i := by
+  rw [fibreSum_eq_ite, cm]
+  exact (Fin.sum_univ_fun_getElem t (fun r => if f r.1 = f t[i.1].1 then r.2 else 0)).symm
+
+/-- Finset form: `H(f) = −Σ_i w_i log₂ (mass of the f-class of row i)`. -/
+theorem Hmap_fin [DecidableEq κ₁] (f : κ → κ₁) (t : Tab κ ℝ) :
+    Hmap f t = -∑ i : Fin t.length, wOf t i * Real.logb 2 (cm (wOf t) (atRow f t) i) := by
+  rw [Hmap_rows]
+  congr 1
+  rw [← Fin.sum_univ_fun_getElem t (fun r => r.2 * Real.logb 2 (fibreSum f t (f r.1)))]
+  apply Finset.sum_congr rfl
+  intro i _
+  rw [fibreSum_eq_cm]; rfl
+
+theorem cm_congr_equiv {ι β β' : Type} [Fintype ι] [DecidableEq β] [DecidableEq β']
+    (w : ι → ℝ) (a : ι → β) (b : ι → β') (i : ι) (h : ∀ j, a j = a i ↔ b j = b i) :
+    cm w a i = cm w b i := by
+  unfold cm
+  apply Finset.sum_congr rfl
+  intro j _
+  by_cases hj : a j = a i
+  · rw [if_pos hj, if_pos ((h j).mp hj)]
+  · rw [if_neg hj, if_neg (fun hb => hj ((h j).mpr hb))]
+
+theorem mem_keys_getElem (t : Tab κ ℝ) (i : Fin t.length) : t[i.1].1 ∈ keys t :=
+  List.mem_map_of_mem (List.getElem_mem i.2)
+
+/-- **Equivalent maps have equal entropy**: if `f` and `g` identify the same pairs of stored
+outcomes, the laws of `f` and `g` have the same entropy (any real table). -/
+theorem Hmap_equiv [DecidableEq κ₁] [DecidableEq κ₂] (f : κ → κ₁) (g : κ → κ₂) (t : Tab κ ℝ)
+    (h : ∀ k ∈ keys t, ∀ k' ∈ keys t, f k = f k' ↔ g k = g k') : Hmap f t = Hmap g t := by
+  rw [Hmap_fin, Hmap_fin]
+  congr 1
+  apply Finset.sum_congr rfl
+  intro i _
+  rw [cm_congr_equiv (wOf t) (atRow f t) (atRow g t) i
+    (fun j => h _ (mem_keys_getElem t j) _ (mem_keys_getElem t i))]
+
+/-- **A function of a variable has at most its entropy**: if `f` is determined by `g` on the
+stored outcomes of a table with non-negative values, `H(f) ≤ H(g)`. -/
+theorem Hmap_le_of_function [DecidableEq κ₁] [DecidableEq κ₂] (f : κ → κ₁) (g : κ → κ₂)
+    (t : Tab κ ℝ) (hnn : ∀ r ∈ t, 0 ≤ r.2)
+    (h : ∀ k ∈ keys t, ∀ k' ∈ keys t, g k = g k' → f k = f k') : Hmap f t ≤ Hmap g t := by
+  have hw : ∀ i : Fin t.length, 0 ≤ wOf t i := fun i => hnn _ (List.getElem_mem i.2)
+  have hfg : ∀ i j : Fin t.length, atRow g t i = atRow g t j → atRow f t i = atRow f t j :=
+    fun i j e => h _ (mem_keys_getElem t i) _ (mem_keys_getElem t j) e
+  have hcore := core_log hw
+    (fun j => (Sum.inr (atRow g t j) : κ₁ ⊕ κ₂)) (fun j => Sum.inr (atRow g t j))
+    (fun j => Sum.inr (atRow g t j)) (fun j => Sum.inl (atRow f t j))
+    (by intro i j e; simpa using hfg i j (by simpa using e))
+    (by intro i j e; simpa using hfg i j (by simpa using e))
+    (by intro i j e _; exact e)
+  have e1 : ∀ i, cm (wOf t) (fun j => (Sum.inr (atRow g t j) : κ₁ ⊕ κ₂)) i
+      = cm (wOf t) (atRow g t) i :=
+    fun i => cm_congr_equiv _ _ _ i (fun j => by simp)
+  have e2 : ∀ i, cm (wOf t) (fun j => (Sum.inl (atRow f t j) : κ₁ ⊕ κ₂)) i
+      = cm (wOf t) (atRow f t) i :=
+    fun i => cm_congr_equiv _ _ _ i (fun j => by simp)
+  simp only [e1, e2] at hcore
+  rw [Hmap_fin, Hmap_fin]
+  have hl : 0 < Real.log 2 := Real.log_pos (by norm_num)
+  have hdiv := div_nonneg hcore hl.le
+  rw [← sub_nonneg]
+  refine le_trans hdiv (le_of_eq ?_)
+  rw [Finset.sum_div, neg_sub_neg, ← Finset.sum_sub_distrib]
+  apply Finset.sum_congr rfl
+  intro i _
+  simp only [← Real.log_div_log]
+  ring
+
+/-- Pairing a variable with a function of it does not change the entropy. -/
+theorem Hmap_pair [DecidableEq κ₁] [DecidableEq κ₂] (f : κ → κ₁) (g : κ → κ₂) (t : Tab κ ℝ)
+    (h : ∀ k ∈ keys t, ∀ k' ∈ keys t, g k = g k' → f k = f k') :
+    Hmap (fun k => (f k, g k)) t = Hmap g t := by
+  apply Hmap_equiv
+  intro k hk k' hk'
+  constructor
+  · intro e; exact (Prod.mk.inj e).2
+  · intro e; rw [e, h k hk k' hk' e]
+
+/-- Entropy is non-negative for a sub-probability table. -/
+theorem Hmap_nonneg [DecidableEq κ₁] (f : κ → κ₁) (t : Tab κ ℝ) (hnn : ∀ r ∈ t, 0 ≤ r.2)
+    (hmass : (t.map (·.2)).sum ≤ 1) : 0 ≤ Hmap f t := by
+  rw [Hmap_rows, neg_nonneg]
+  apply list_sum_nonpos
+  intro x hx
+  obtain ⟨r, hr, rfl⟩ := List.mem_map.mp hx
+  have h0 := hnn r hr
+  have hle : fibreSum f t (f r.1) ≤ 1 := by
+    rw [fibreSum_eq_ite]
+    refine le_trans ?_ hmass
+    apply List.sum_le_sum
+    intro s hs
+    split
+    · exact le_rfl
+    · exact hnn s hs
+  rcases h0.eq_or_lt with h0 | hpos
+  · rw [← h0, zero_mul]
+  · have hfpos : 0 < fibreSum f t (f r.1) := by
+      rw [fibreSum_eq_ite]
+      have : r.2 ≤ (t.map (fun s => if f s.1 = f r.1 then s.2 else 0)).sum := by
+        have h1 := List.single_le_sum (l := t.map (fun s => if f s.1 = f r.1 then s.2 else 0))
+          (by
+            intro x hx
+            obtain ⟨s, hs, rfl⟩ := List.mem_map.mp hx
+            split
+            · exact hnn s hs
+            · exact le_rfl)
+          (if f r.1 = f r.1 then r.2 else 0) (List.mem_map.mpr ⟨r, hr, rfl⟩)
+        simpa using h1
+      linarith
+    exact mul_nonpos_of_nonneg_of_nonpos hpos.le
+      (Real.logb_nonpos (by norm_num) hfpos.le hle)
+
+end Entropy
 end Dit.Lemmas.Meet
